@@ -37,10 +37,11 @@ EU = "selfies.utils.encoding_utils."
 class Validated(Forward):
     """state: True once enc_type is known to be a member of a literal tuple"""
 
-    def __init__(self, f, pname):
+    def __init__(self, f, pname, ctx=None):
         super().__init__(f.node)
         self.f = f
         self.p = pname
+        self.ctx = ctx
         self.literals = []
         self.bad_exits = []
 
@@ -49,11 +50,18 @@ class Validated(Forward):
 
     def test(self, expr, state):
         if isinstance(expr, ast.Compare) and len(expr.ops) == 1 and isinstance(expr.left, ast.Name) and expr.left.id == self.p \
-                and isinstance(expr.comparators[0], (ast.Tuple, ast.List, ast.Set)):
-            try:
-                lit = tuple(ast.literal_eval(expr.comparators[0]))
-            except Exception:
-                return state, state
+                and isinstance(expr.comparators[0], (ast.Tuple, ast.List, ast.Set, ast.Name)):
+            cmp = expr.comparators[0]
+            if isinstance(cmp, ast.Name):
+                # a module-level immutable constant (tuple / frozenset of literals), folded from its initialiser
+                lit = self._module_const(cmp.id)
+                if lit is None:
+                    return state, state
+            else:
+                try:
+                    lit = tuple(ast.literal_eval(cmp))
+                except Exception:
+                    return state, state
             self.literals.append((expr, lit))
             if isinstance(expr.ops[0], ast.NotIn):
                 return state, True
@@ -63,6 +71,20 @@ class Validated(Forward):
                 and isinstance(expr.ops[0], ast.Eq) and isinstance(expr.comparators[0], ast.Constant):
             return True, state
         return state, state
+
+    def _module_const(self, name):
+        if self.ctx is None:
+            return None
+        local = {n.id for n in own_nodes(self.f.node) if isinstance(n, ast.Name) and isinstance(n.ctx, ast.Store)}
+        if name in local or name in self.f.params:
+            return None
+        try:
+            v = self.ctx.fold.global_value(self.f.module.name, name)
+        except Exception:
+            return None
+        if isinstance(v, (tuple, frozenset)) and all(isinstance(x, str) for x in v):
+            return tuple(v)
+        return None
 
     def exit(self, kind, node, state):
         if kind in ("return", "end") and not state:
@@ -212,7 +234,7 @@ def run(ctx, rep):
     for f, want in ((s2e, {"label", "one_hot", "both"}), (e2s, {"label", "one_hot"})):
         if "enc_type" not in f.params:
             raise AnalysisError("%s has no enc_type parameter" % f.qual)
-        v = Validated(f, "enc_type")
+        v = Validated(f, "enc_type", ctx)
         v.run(False)
         ok = not v.bad_exits and bool(v.literals)
         rep.ob("U1", ok, v.bad_exits[0] if v.bad_exits else f.node, f, construct="enc_type validation of %s" % f.name,
@@ -244,9 +266,20 @@ def run(ctx, rep):
     # ---- U5
     check_padding(ctx, rep, "U5")
     # ---- U6 one-hot rows
-    loops = [n for n in own_nodes(s2e.node) if isinstance(n, ast.For)]
+    # the row-building loop lives in selfies_to_encoding or in a private same-module helper it hands the vocabulary to
+    builders = [(s2e, "vocab_stoi")]
+    for site in ctx.cg.sites(s2e):
+        for g in site.callees:
+            if g.module is s2e.module and g.cls is None and g not in (s2e, e2s, b2h, h2b) and isinstance(site.node, ast.Call):
+                for i, a in enumerate(site.node.args):
+                    if isinstance(a, ast.Name) and a.id == "vocab_stoi" and i < len(g.posparams):
+                        builders.append((g, g.posparams[i]))
+                for kw in site.node.keywords:
+                    if isinstance(kw.value, ast.Name) and kw.value.id == "vocab_stoi" and kw.arg in g.params:
+                        builders.append((g, kw.arg))
     found = False
-    for lp in loops:
+    for bf, vname in builders:
+      for lp in [n for n in own_nodes(bf.node) if isinstance(n, ast.For)]:
         if not isinstance(lp.target, ast.Name):
             continue
         iv = lp.target.id
@@ -263,7 +296,7 @@ def run(ctx, rep):
                 lst, cnt = cnt, lst
             if not (isinstance(lst, ast.List) and len(lst.elts) == 1 and isinstance(lst.elts[0], ast.Constant) and lst.elts[0].value == 0):
                 probs.append("row is not initialised with zeros")
-            if unparse(cnt) != "len(vocab_stoi)":
+            if unparse(cnt) != "len(%s)" % vname:
                 probs.append("row width is not len(vocab)")
             stores = [x for x in lp.body if isinstance(x, ast.Assign) and isinstance(x.targets[0], ast.Subscript)
                       and isinstance(x.targets[0].value, ast.Name) and x.targets[0].value.id == r]
@@ -273,7 +306,7 @@ def run(ctx, rep):
                     and x.args and isinstance(x.args[0], ast.Name) and x.args[0].id == r]
             if len(apps) != 1:
                 probs.append("row is not appended exactly once")
-            rep.ob("U6", not probs, st, s2e, construct="one-hot row %s" % r, how="fresh [0]*len(vocab) per symbol, one store of 1 at the label index",
+            rep.ob("U6", not probs, st, bf, construct="one-hot row %s" % r, how="fresh [0]*len(vocab) per symbol, one store of 1 at the label index",
                    witness="; ".join(probs) or None, nontrivial=True, key="row/" + ("ok" if not probs else probs[0][:40]))
     if not found:
         rep.ob("U6", False, s2e.node, s2e, construct="one-hot rows",
